@@ -501,6 +501,10 @@ impl Check for C15 {
         }
         sc.excludes = (0..r.urange(1, 3))
             .map(|_| {
+                // (an empty or slash-only pattern is ignored: it excludes nothing and ends nothing)
+                if r.below(8) == 0 {
+                    return (*r.pick(&["", "/"])).to_string();
+                }
                 let mut p = glob_name(&mut r);
                 if r.below(4) == 0 {
                     p = format!("{p}/{}", glob_name(&mut r));
